@@ -10,6 +10,8 @@ import (
 	"fmt"
 	"math/big"
 	"reflect"
+	"runtime"
+	"runtime/debug"
 	"sort"
 	"strings"
 	"sync"
@@ -19,6 +21,7 @@ import (
 	"golang.org/x/crypto/sha3"
 
 	"github.com/icon-project/goloop/common"
+	"github.com/icon-project/goloop/common/codec"
 	"github.com/icon-project/goloop/common/crypto"
 	"github.com/icon-project/goloop/module"
 	"github.com/icon-project/goloop/verifshim/ev"
@@ -610,6 +613,8 @@ type c12Ctx struct {
 	byGoloopID map[string]c12Seen
 	stats      map[string]int64
 	rounds     int
+
+	histComplete bool
 }
 
 type c12Seen struct{ ser, tag, js, collapsed string }
@@ -890,13 +895,349 @@ func (c *c12Ctx) runMutation(cs c12Case) {
 	}
 }
 
+// ---------------------------------------------------------------------------
+// HISTORY family: results never depend on what was processed before
+// ---------------------------------------------------------------------------
+
+type c12HObs struct {
+	Obs   c12Obs
+	Bytes string
+	Hash  string
+	Out   string // outcome text of a failing item
+}
+
+type c12HItem struct {
+	Name  string
+	valid bool
+	exp   c12Obs // model expectation (valid items)
+	run   func() c12HObs
+	base  c12HObs
+
+	baseBad bool
+}
+
+type c12HCase struct {
+	History []string `json:"history"`
+	B       string   `json:"then"`
+	Hist    bool     `json:"history_case"`
+}
+
+func c12ObserveAll(tx Transaction) c12HObs {
+	var h c12HObs
+	o, err := c12Observe(tx)
+	if err != nil {
+		h.Out = "unreadable: " + err.Error()
+	}
+	h.Obs = o
+	h.Bytes = hex.EncodeToString(tx.Bytes())
+	h.Hash = hex.EncodeToString(tx.Hash())
+	return h
+}
+
+// c12Poke calls everything that may compute a hash on a (possibly invalid)
+// transaction and describes the outcome.
+func c12Poke(tx Transaction, err error) string {
+	if err != nil {
+		return "construct: " + c12ErrClass(err)
+	}
+	var b strings.Builder
+	fmt.Fprintf(&b, "id=%x;", tx.ID())
+	if e := tx.Verify(); e != nil {
+		fmt.Fprintf(&b, "verify=%s;", c12ErrClass(e))
+	} else {
+		b.WriteString("verify=ok;")
+	}
+	fmt.Fprintf(&b, "hash=%x;", tx.Hash())
+	if _, e := json.Marshal(tx); e != nil {
+		fmt.Fprintf(&b, "json=%s;", c12ErrClass(e))
+	} else {
+		b.WriteString("json=ok;")
+	}
+	return b.String()
+}
+
+func c12ErrClass(err error) string {
+	s := err.Error()
+	if len(s) > 60 {
+		s = s[:60]
+	}
+	return s
+}
+
+func (c *c12Ctx) historyItems() []*c12HItem {
+	g := c.g
+	var items []*c12HItem
+	// ---- valid transactions, every presentation ----
+	type vt struct {
+		name string
+		idx  []int
+	}
+	find := func(data, form string) []int {
+		idx := make([]int, c12NDims)
+		idx[dValue] = len(g.value) - 1
+		idx[dStep] = len(g.step) - 1
+		idx[dNid] = 1
+		idx[dNonce] = 1
+		for i, d := range g.data {
+			if d.name == data {
+				idx[dData] = i
+			}
+		}
+		for i, f := range c12Forms {
+			if f == form {
+				idx[dForm] = i
+			}
+		}
+		return idx
+	}
+	vts := []vt{
+		{"transfer", find("none", "canonical")},
+		{"message", find("message", "canonical")},
+		{"call-nested", find("call-nested", "canonical")},
+		{"call-special-dot", find("call-special-.", "canonical")},
+		{"deposit", find("deposit", "canonical")},
+		{"call-null", find("call-null", "canonical")},
+		{"raw-leading-zero", find("call-flat", "stepLimit-leading-zero")},
+		{"raw-extra-field", find("none", "unknown-extra-field")},
+	}
+	var firstData transactionV3Data
+	var firstJS []byte
+	for vi, v := range vts {
+		lt := g.build(v.idx)
+		if lt == nil {
+			panic("history: grammar element missing: " + v.name)
+		}
+		sig, err := crypto.NewSignature(refTxID(lt), g.signer)
+		if err != nil {
+			panic(err)
+		}
+		rsv, _ := sig.SerializeRSV()
+		js := c12JSON(c12WithSig(lt, rsv), &c12Presentations[0])
+		exp := g.expected(lt, true)
+		t0, err := NewTransactionFromJSON(js)
+		if err != nil {
+			panic(fmt.Sprintf("history: valid item %s does not parse: %v", v.name, err))
+		}
+		v3 := t0.(*transaction).Transaction.(*transactionV3)
+		isRaw := v3.raw
+		bin := append([]byte(nil), t0.Bytes()...)
+		data := v3.transactionV3Data
+		if vi == 0 {
+			firstData, firstJS = data, js
+		}
+		add := func(pres string, f func() (Transaction, error)) {
+			items = append(items, &c12HItem{Name: "V:" + v.name + "/" + pres, valid: true, exp: exp, run: func() c12HObs {
+				tx, err := f()
+				if err != nil {
+					return c12HObs{Out: "construct: " + c12ErrClass(err)}
+				}
+				return c12ObserveAll(tx)
+			}})
+		}
+		add("json", func() (Transaction, error) { return NewTransactionFromJSON(js) })
+		add("rawjson", func() (Transaction, error) { return NewTransaction(js) })
+		add("stored", func() (Transaction, error) { return NewTransaction(bin) })
+		if !isRaw {
+			add("struct", func() (Transaction, error) {
+				return &transaction{&transactionV3{transactionV3Data: data}}, nil
+			})
+		}
+	}
+	// ---- failing inputs ----
+	fail := func(name string, f func() string) {
+		items = append(items, &c12HItem{Name: "F:" + name, run: func() c12HObs {
+			var out string
+			if p := ev.Catch(func() { out = f() }); p != "" {
+				out = "panic: " + p
+			}
+			return c12HObs{Out: out}
+		}})
+	}
+	binWith := func(mod func(d *transactionV3Data)) []byte {
+		d := firstData
+		mod(&d)
+		bs, err := codecMarshalV3(&d)
+		if err != nil {
+			panic(err)
+		}
+		return bs
+	}
+	for _, bd := range []struct{ name, data string }{
+		{"bool-true", `true`}, {"bool-in-params", `{"method":"f","params":{"flag":true}}`}, {"bool-in-list", `[null,false]`},
+		{"not-json", `tru`}, {"float", `1.5`}, {"nested-bool", `{"a":{"b":[{"c":true}]}}`},
+	} {
+		bin := binWith(func(d *transactionV3Data) { d.Data = json.RawMessage(bd.data) })
+		fail("binary-data-"+bd.name, func() string { return c12Poke(NewTransaction(bin)) })
+		data := firstData
+		data.Data = json.RawMessage(bd.data)
+		fail("struct-data-"+bd.name, func() string {
+			return c12Poke(&transaction{&transactionV3{transactionV3Data: data}}, nil)
+		})
+		js := bytes.Replace(firstJS, []byte(`"signature"`), []byte(`"data":`+bd.data+`,"signature"`), 1)
+		fail("json-data-"+bd.name, func() string { return c12Poke(NewTransactionFromJSON(js)) })
+		fail("rawjson-data-"+bd.name, func() string { return c12Poke(NewTransaction(js)) })
+	}
+	good := binWith(func(d *transactionV3Data) {})
+	fail("binary-truncated", func() string { return c12Poke(NewTransaction(good[:len(good)/2])) })
+	fail("binary-empty", func() string { return c12Poke(NewTransaction([]byte{})) })
+	fail("binary-garbage", func() string { return c12Poke(NewTransaction(bytes.Repeat([]byte{0xff}, 40))) })
+	v2 := binWith(func(d *transactionV3Data) { d.Version.Value = 2 })
+	fail("binary-version2", func() string { return c12Poke(NewTransaction(v2)) })
+	fail("json-version4", func() string {
+		return c12Poke(NewTransactionFromJSON(bytes.Replace(firstJS, []byte(`"0x3"`), []byte(`"0x4"`), 1)))
+	})
+	fail("json-truncated", func() string { return c12Poke(NewTransactionFromJSON(firstJS[:len(firstJS)/2])) })
+	fail("json-call-no-method", func() string {
+		js := bytes.Replace(firstJS, []byte(`"signature"`), []byte(`"dataType":"call","data":{"method":""},"signature"`), 1)
+		return c12Poke(NewTransactionFromJSON(js))
+	})
+	fail("json-wrong-signature", func() string {
+		js := bytes.Replace(firstJS, []byte(`"0x3"`), []byte(`"0x3","nonce2":"x"`), 1)
+		return c12Poke(NewTransactionFromJSON(js))
+	})
+	return items
+}
+
+func codecMarshalV3(d *transactionV3Data) ([]byte, error) {
+	return codec.MarshalToBytes(d)
+}
+
+func (c *c12Ctx) historyCheck(items map[string]*c12HItem, hist []string, bname string) {
+	r := c.r
+	for _, a := range hist {
+		items[a].run()
+	}
+	b := items[bname]
+	got := b.run()
+	r.Eval(1)
+	r.Nontrivial("hist|" + strings.Join(hist, ">") + ">" + bname)
+	cs := c12HCase{History: hist, B: bname, Hist: true}
+	last := hist[len(hist)-1]
+	report := func(field, detail string) {
+		cls := last
+		if i := strings.IndexByte(cls, '/'); i > 0 && strings.HasPrefix(cls, "V:") {
+			cls = "valid" + cls[i:]
+		}
+		bc := bname
+		if i := strings.IndexByte(bc, '/'); i > 0 && strings.HasPrefix(bc, "V:") {
+			bc = "valid" + bc[i:]
+		}
+		r.Violation(fmt.Sprintf("result-depends-on-history/%s/after=%s/then=%s", field, cls, bc),
+			fmt.Sprintf("history %v then %s: %s", hist, bname, detail), cs)
+	}
+	if b.valid {
+		if got.Out != "" {
+			report("outcome", "valid transaction is now: "+got.Out)
+			return
+		}
+		if d := c12Diff(got.Obs, b.exp); d != "" && !b.baseBad {
+			report("model:"+d, fmt.Sprintf("got %+v\n want %+v", got.Obs, b.exp))
+			return
+		}
+		if d := c12Diff(got.Obs, b.base.Obs); d != "" {
+			report(d, fmt.Sprintf("got %+v\n clean %+v", got.Obs, b.base.Obs))
+			return
+		}
+		if got.Bytes != b.base.Bytes {
+			report("Bytes", fmt.Sprintf("stored form %s\n in a clean state %s", got.Bytes, b.base.Bytes))
+			return
+		}
+		if got.Hash != b.base.Hash {
+			report("Hash", fmt.Sprintf("%s vs clean %s", got.Hash, b.base.Hash))
+		}
+		return
+	}
+	if got.Out != b.base.Out {
+		report("outcome", fmt.Sprintf("%q\n in a clean state %q", got.Out, b.base.Out))
+	}
+}
+
+// runHistory enumerates all ordered pairs (thorough: triples) on one locked
+// OS thread with the collector off while a history runs, so that anything a
+// component keeps between calls (pools, caches) is handed to the next call.
+func (c *c12Ctx) runHistory(only *c12HCase) {
+	r := c.r
+	runtime.LockOSThread()
+	defer runtime.UnlockOSThread()
+	old := debug.SetGCPercent(-1)
+	defer debug.SetGCPercent(old)
+	list := c.historyItems()
+	items := map[string]*c12HItem{}
+	// clean-state baselines: all valid items first, before any failing call
+	for _, it := range list {
+		items[it.Name] = it
+		if it.valid {
+			it.base = it.run()
+			if it.base.Out != "" {
+				r.Sanity(false, "history: valid item %s fails in a clean state: %s", it.Name, it.base.Out)
+			} else if d := c12Diff(it.base.Obs, it.exp); d != "" {
+				it.baseBad = true // reported once here; the history oracle then only compares with the baseline
+				r.Violation("history-baseline-differs-from-model/"+d, fmt.Sprintf("%s: got %+v want %+v", it.Name, it.base.Obs, it.exp), c12HCase{B: it.Name, Hist: true})
+			}
+		}
+	}
+	for _, it := range list {
+		if !it.valid {
+			it.base = it.run()
+		}
+	}
+	runtime.GC()
+	runtime.GC()
+	if only != nil {
+		ok := items[only.B] != nil
+		for _, h := range only.History {
+			ok = ok && items[h] != nil
+		}
+		if ok {
+			c.historyCheck(items, only.History, only.B)
+		}
+		return
+	}
+	depth := r.Pick(1, 2) // length of the history before B
+	n := 0
+	var nV, nF int
+	for _, it := range list {
+		if it.valid {
+			nV++
+		} else {
+			nF++
+		}
+	}
+	complete := opseq.Sequences(len(list), 1, depth, func(seq []int) bool {
+		hist := make([]string, len(seq))
+		for i, j := range seq {
+			hist[i] = list[j].Name
+		}
+		for _, b := range list {
+			if r.Expired() {
+				return false
+			}
+			if len(seq) > 1 && !b.valid {
+				continue // failing last elements are covered by the pairs
+			}
+			c.historyCheck(items, hist, b.Name)
+			n++
+			if n%512 == 0 {
+				runtime.GC()
+				runtime.GC()
+			}
+		}
+		return true
+	})
+	r.Set("history_items", map[string]int{"valid_presentations": nV, "failing_inputs": nF})
+	r.Set("history_depth", depth+1)
+	r.Set("history_cases", n)
+	c.histComplete = complete
+}
+
 func TestVerifC12(t *testing.T) {
 	r := ev.Start(t, "C12", "exploration")
 	r.Rule("full product from x to x value x stepLimit x timestamp x nid x nonce x data-shape x spelling-form of a v3 JSON grammar, " +
 		"each in every presentation {compact, indented, reversed key order, all-\\u-escaped, all three}; every element is pushed through " +
 		"JSON -> object -> stored bytes -> object (quick 2, thorough 3 rounds), raw-JSON constructor, and JSON-RPC output -> object; " +
 		"non-trivial = distinct (reference serialisation, presentation); mutation part: every single-dimension change of every canonical-form " +
-		"element signed by the sender, carrying the original signature")
+		"element signed by the sender, carrying the original signature; HISTORY family: on one locked OS thread with the collector off, every ordered pair (thorough: triple) " +
+		"over {8 valid transactions x json/raw-json/stored/struct presentations} U {failing inputs: boolean/float/non-JSON data as binary, struct, JSON and raw JSON; truncated/empty/garbage/version-2 binary; version 4, truncated JSON, call without method, wrong signature}: the last element's id/fields/Verify/Bytes/Hash (or failure outcome) must equal its clean-state baseline and the model")
 	r.Assume("the reference serialiser (ICON JSON-RPC v3 'transaction hash' rules: keys sorted, '.'-joined, \\-escaping of \\{}[]., null = \\0, lists '.'-joined) written in the harness is the specification",
 		"data values are strings, dicts, lists and null only: JSON numbers/booleans (aliases of their integer part / unsupported) are not in the grammar; of the [] / [\"\"] alias only [] is in the grammar",
 		"golang.org/x/crypto/sha3 and goloop's signer (checked by C13) are trusted")
@@ -904,6 +1245,13 @@ func TestVerifC12(t *testing.T) {
 	c := &c12Ctx{r: r, g: g, byID: map[string]string{}, rounds: r.Pick(2, 3), byGoloopID: map[string]c12Seen{}, stats: map[string]int64{}}
 
 	if ev.Replaying() {
+		var hc c12HCase
+		ev.ReplayCase(&hc)
+		if hc.Hist {
+			c.runHistory(&hc)
+			r.Finish(false)
+			return
+		}
 		var cs c12Case
 		ev.ReplayCase(&cs)
 		if cs.Tier != r.Tier() {
@@ -927,6 +1275,9 @@ func TestVerifC12(t *testing.T) {
 		r.Finish(false)
 		return
 	}
+
+	// HISTORY family first (its clean-state baselines must precede everything)
+	c.runHistory(nil)
 
 	nPres := r.Pick(4, len(c12Presentations))
 	// one work list in product order (form fastest, then data shape, ...): the
@@ -982,7 +1333,7 @@ func TestVerifC12(t *testing.T) {
 			dmu.Unlock()
 		}
 	})
-	exhaustive := doneA == int64(nCases) && doneB == int64(nMuts)
+	exhaustive := doneA == int64(nCases) && doneB == int64(nMuts) && c.histComplete
 	var cases []c12Case
 	for _, w := range work {
 		if w.Mut == nil {
